@@ -412,12 +412,12 @@ func vhSpill(cellKind int) {
 //verif:bounds U=512; payload length symbolic in [0, X+3*(U-4)] over 0..3 overflow pages; cell bytes, page numbers and page contents free; one skolem index for the content
 func VH_C14_spill_table_leaf() { vhSpill(0) }
 
-//verif:prop C14,C02
+//verif:prop C14,C02,C01
 //verif:merge rmGetVarint,rmLocalSize
 //verif:bounds as VH_C14_spill_table_leaf, index threshold
 func VH_C14_spill_index_leaf() { vhSpill(1) }
 
-//verif:prop C14,C02
+//verif:prop C14,C02,C01
 //verif:merge rmGetVarint,rmLocalSize
 //verif:bounds as VH_C14_spill_table_leaf, index interior cell (4-byte child pointer first)
 func VH_C14_spill_index_interior() { vhSpill(2) }
